@@ -715,6 +715,26 @@ const EXTRA_CAPS: [&str; 4] = [
     "http://xml.juniper.net/dmi/system/1.0",
 ];
 
+/// "modules-N": a server that lists N YANG modules, one capability each (a hello of N x 70 bytes)
+fn module_caps(c: &Value) -> Vec<String> {
+    let n: usize = c["extra"].as_str().and_then(|x| x.strip_prefix("modules-")).and_then(|n| n.parse().ok()).unwrap_or(0);
+    (0..n).map(|i| format!("http://example.com/yang/vendor-module-{i:05}?module=vendor-module-{i:05}")).collect()
+}
+
+/// the module capabilities of a list, replaced by one entry that stands for them (count and a checksum)
+fn summarise_modules(caps: Vec<String>) -> Vec<String> {
+    let (mods, mut rest): (Vec<String>, Vec<String>) = caps.into_iter().partition(|u| u.starts_with("http://example.com/yang/vendor-module-"));
+    if !mods.is_empty() {
+        let mut sorted = mods.clone();
+        sorted.sort();
+        sorted.dedup();
+        let sum = sorted.iter().flat_map(|u| u.bytes()).fold(0u64, |a, b| a.wrapping_mul(1_000_003).wrapping_add(b as u64));
+        rest.push(format!("vendor-modules:{}:{}:{sum:016x}", mods.len(), sorted.len()));
+    }
+    rest.sort();
+    rest
+}
+
 fn lookalikes(c: &Value) -> Vec<&'static str> {
     match c["extra"].as_str().unwrap_or("none") {
         // the XML namespace of the protocol, which many servers list next to the capabilities
@@ -752,6 +772,9 @@ fn hello_case_xml(c: &Value) -> String {
     // capabilities that look like a base-protocol capability and are none
     for u in lookalikes(c) {
         caps.push_str(&format!("<{p}capability>{}</{p}capability>", u.replace('&', "&amp;")));
+    }
+    for u in module_caps(c) {
+        caps.push_str(&format!("<{p}capability>{u}</{p}capability>\n"));
     }
     let sid_el = |t: &str| format!("<{p}session-id>{t}</{p}session-id>");
     let sids = match sid {
@@ -821,7 +844,8 @@ fn c12(cases_path: &str, out: &mut dyn Write) {
             hello_caps.push(JUNOS_CAP.into());
             hello_caps.extend(EXTRA_CAPS.iter().map(|u| u.to_string()));
             hello_caps.extend(lookalikes(c).iter().map(|u| u.to_string()));
-            hello_caps.sort();
+            hello_caps.extend(module_caps(c));
+            let hello_caps = summarise_modules(hello_caps);
             let mut ev = json!({"ev": "c12", "case": k, "c": c, "client_base": client_base, "hello_caps": hello_caps,
                                 "client_hello_framing": if client_hello.ends_with(EOM) { "eom" } else { "other" }});
             match r {
@@ -837,8 +861,8 @@ fn c12(cases_path: &str, out: &mut dyn Write) {
                     let ctx = session.context();
                     ev["version"] = json!(format!("{}", ctx.protocol_version()).trim_start_matches(":base:"));
                     ev["sid"] = json!(format!("{}", ctx.session_id()));
-                    let mut caps: Vec<String> = ctx.server_capabilities().iter().map(|c| c.uri().to_string()).collect();
-                    caps.sort();
+                    let caps: Vec<String> = ctx.server_capabilities().iter().map(|c| c.uri().to_string()).collect();
+                    let caps = summarise_modules(caps);
                     ev["caps"] = json!(caps);
                     // the same list with XML escaping undone (decides which of two rules a difference falls under)
                     let mut un: Vec<String> = caps.iter().map(|c| c.replace("&amp;", "&")).collect();
